@@ -189,4 +189,8 @@ def run(ctx, ck):
         uses = ('self.current[%s]' % lv) in txt and ('%s + 1' % lv) in txt
         ck.ob('R-EXH.rows', CUR + '|interior', (mn, mx) == (1, 1) and own and uses, f.loc(l),
               'one row per own pulse (yield_ends=False), number k+1, value self.current[k]')
+    from ._endidx import check_end_index
+    ck.rule('R-COUNT.end-index', 'predicted index of the end pulses == number of pulses created before them (all end states)')
+    ncases = check_end_index(ctx, ck)
+    ck.floor('end-state cases', ncases, 30)
     ck.undecided += ['correct sign / membership of conn[K] for every junction topology (runtime graph)']
